@@ -65,17 +65,39 @@ func verifIDs(l []replica) []uint64 {
 	return r
 }
 
-// VerifSchedule decodes a SCHEDULER_CONTEXT lookup result exactly as the leader
-// loop does, loads it into a scheduler with a scripted random source and runs
-// either launch() or maintainShards().
+// VerifScheduler is one long-lived scheduler, as the leader's Drummer keeps it
+// (built once in NewDrummer, its context refreshed at every round).
+type VerifScheduler struct {
+	s   *scheduler
+	rnd *VerifRand
+}
+
+// VerifNewScheduler builds a scheduler with a scripted random source.
+func VerifNewScheduler() *VerifScheduler {
+	rnd := &VerifRand{}
+	return &VerifScheduler{s: &scheduler{randomSrc: rnd, config: pb.Config{}}, rnd: rnd}
+}
+
+// VerifSchedule runs one round on a fresh scheduler.
 func VerifSchedule(nh *dragonboat.NodeHost, ctxJSON []byte, draws []uint64,
-	mode string) (res VerifSchedResult) {
+	mode string) VerifSchedResult {
+	return VerifNewScheduler().Schedule(nh, ctxJSON, draws, mode)
+}
+
+// Schedule decodes a SCHEDULER_CONTEXT lookup result exactly as the leader
+// loop does, loads it into the scheduler and runs either launch() or
+// maintainShards() with the given scripted draws.
+func (v *VerifScheduler) Schedule(nh *dragonboat.NodeHost, ctxJSON []byte,
+	draws []uint64, mode string) (res VerifSchedResult) {
 	sc := &schedulerContext{}
 	if err := json.Unmarshal(ctxJSON, &sc); err != nil {
 		panic(err)
 	}
-	rnd := &VerifRand{Draws: draws}
-	s := &scheduler{randomSrc: rnd, config: pb.Config{}}
+	rnd := v.rnd
+	rnd.Draws = draws
+	rnd.Pos = 0
+	rnd.Exhausted = false
+	s := v.s
 	s.updateSchedulerContext(sc)
 	for _, c := range s.shards {
 		res.ShardsOrder = append(res.ShardsOrder, c.ShardId)
